@@ -238,6 +238,8 @@ def run(tier, seed):
     rep.assumptions += ['decided: everything structural about the dispatch and the catalogues; the event-level statement '
                         'reduces to these given C01/C02 unit-level verdicts']
     _one_engine(rep, ctx.prog)
+    from ..rules import cachemem
+    cachemem.check(rep, prog)
     return rep
 
 
